@@ -13,6 +13,7 @@ run: applies the patch in a scratch worktree and points the checks at it with VE
   `git -C /repo apply` + undo, without ever touching /repo); records the verdict in seeded/<id>/meta.json.
 """
 import json
+import re
 import os
 import shutil
 import subprocess
@@ -66,7 +67,7 @@ def vet(src, sid):
         run = "go test -vet=off -count=1 -run 'Demo|Seed|C[0-9]+' ./%s" % pkg
         # find the demo's test names to run exactly them
         names = [l.split("(")[0].replace("func ", "").strip() for l in demo_src.splitlines() if l.startswith("func Test")]
-        race = "-race -tags verif " if "go test -race" in demo_src else ""  # the demonstration states that it needs the race detector
+        race = "-race -tags verif " if re.search(r"go test[^\n]*-race", demo_src) else ""  # the demonstration states that it needs the race detector
         run = "go test %s-vet=off -count=1 -run '^(%s)$' ./%s" % (race, "|".join(names), pkg)
         rc, out = sh(run, wt)
         log.append("demo on unchanged tree: rc=%d" % rc)
